@@ -1,7 +1,7 @@
 (** Proofs about Model/FlagSet.v: the map/visit formulation of ParseFlags chooses,
     for every flag, the value of the first present source in the fixed order
     command line, prefixes in order, properties, default. *)
-From Coq Require Import String List NArith Bool Lia.
+From Coq Require Import String List NArith Bool Lia Arith.
 From Fabio Require Import Lib.Outcome Lib.Bytes Model.FlagSet.
 Import ListNotations.
 Local Open Scope N_scope.
@@ -345,6 +345,28 @@ Proof.
     - destruct (IH Hf) as (r & Hr & Hrest). exists r. split; [right; exact Hr | exact Hrest]. }
   exists r. rewrite (only_source_choice _ _ _ _ _ _ Hk Ho) in Hfr.
   repeat split; auto. rewrite Hs, Hfr. reflexivity.
+Qed.
+
+(* ---------- several Loads in one process ---------- *)
+Lemma load_history_nth {I R} (load : I -> R) inputs i :
+  nth_error (load_history load inputs) i = option_map load (nth_error inputs i).
+Proof. unfold load_history. apply nth_error_map. Qed.
+
+Lemma load_history_app {I R} (load : I -> R) l1 l2 :
+  load_history load (l1 ++ l2) = load_history load l1 ++ load_history load l2.
+Proof. apply map_app. Qed.
+
+(* each result of a history is the single-Load result of its own input, and the results of
+   the Loads already done are not changed by the Loads that follow *)
+Theorem load_history_independent {I R} (load : I -> R) (before after : list I) (x : I) :
+  nth_error (load_history load (before ++ x :: after)) (length before) = Some (load x) /\
+  firstn (length before) (load_history load (before ++ x :: after)) = load_history load before.
+Proof.
+  split.
+  - rewrite load_history_nth, nth_error_app2, Nat.sub_diag by apply le_n. reflexivity.
+  - rewrite load_history_app. unfold load_history at 1 3.
+    rewrite <- (map_length load before) at 1. rewrite firstn_app, firstn_all, Nat.sub_diag.
+    cbn [firstn]. apply app_nil_r.
 Qed.
 
 (* ---------- witnesses ---------- *)
